@@ -67,6 +67,9 @@ def families(tier, seed):
         shl = _Shape(sys=dict(a=hint0), name=f'a:{hint0}, then a_0:{hint1} declared separately')
         out.append(dict(name=f'support with an identifier named like a bit [{shl.name}]',
                         run=(lambda shl=shl, hint1=hint1: harness.verify(co.h_support_lookalike_int, shl, dict(hint=hint1), kind='context')), label='per-shape'))
+    from contracts import context_ops as _co
+    for be in ('cudd', 'autoref'):
+        out.append(dict(name=f'renaming, priming and enumeration on variables of 11 and 12 bits [{be}]', run=_co.wide_enumeration(be), label='bounded'))
     from contracts import optdiff as _od
     out.append(dict(name='same results with assert statements stripped (python -O), section C18', run=_od.family('C18'), label='bounded'))
     return out
